@@ -333,6 +333,12 @@ def run(ctx):
         rcols, acols = list(ref), list(act)
         flags = {'check_data': gen_flag(rng, rcols), 'check_types': gen_flag(rng, rcols),
                  'check_order': gen_flag(rng, rcols), 'check_extra_cols': gen_flag(rng, acols, allow_unknown=True)}
+        if kind == 'extra' and rng.random() < 0.5:
+            # an extra column while the extra-column check is given as a function of the frame (every field but one that
+            # both frames have): the extra column is among the fields it returns for the ACTUAL frame
+            common_ = [c_ for c_ in rcols if c_ in acols]
+            flags['check_extra_cols'] = (lambda d, ex=tuple(common_[:1]): [c_ for c_ in d if c_ not in ex])
+            ctx.bump('extra_with_function_flag')
         case = {'ref': ref.to_dict('list').__repr__()[:1500], 'ref_dtypes': {name_key(c): str(ref[c].dtype) for c in ref},
                 'mutation': kind, 'actual': act.to_dict('list').__repr__()[:1500],
                 'actual_dtypes': {name_key(c): str(act[c].dtype) for c in act},
